@@ -3,6 +3,7 @@
 usage: seedprompt.py <property id> <worktree dir>"""
 import json, sys
 pid, wt = sys.argv[1], sys.argv[2]
+earlier = sys.argv[3] if len(sys.argv) > 3 else ""
 for l in open('/verif/properties.jsonl'):
     p = json.loads(l)
     if p['id'] == pid:
@@ -25,6 +26,7 @@ The semantic property of git-sizer that your change must break:
   Statement: {p['statement']}
   Quantified over: {p['quantifier']['text']}
 
+{("An earlier round already produced the following changes for this property; yours must use DIFFERENT mechanisms and preferably different code locations:" + chr(10) + earlier + chr(10)) if earlier else ""}
 Your task: produce TWO independent changes (A and B; different mechanisms, preferably different files/functions) to the non-test Go source of git-sizer, each of which
   1. still compiles (`go build ./...` and `go vet` need not be clean, but build must succeed),
   2. still passes the 53 existing tests (run them and check!),
